@@ -5,8 +5,9 @@ H=$(git -C /repo rev-parse HEAD)
 W=/tmp/wt/verify
 git -C /repo worktree remove --force $W 2>/dev/null
 git -C /repo worktree add -q --detach $W $H || exit 2
-for i in "$@"; do
-  src=/tmp/wt/$i/MUTANT
+for arg in "$@"; do
+  i=${arg%%=*}; src=/tmp/wt/$i/MUTANT
+  case "$arg" in *=*) src=${arg#*=};; esac
   p=$src/patch.diff; [ -f $src/patch_rebased.diff ] && p=$src/patch_rebased.diff
   out=/verif/seeded/$i; mkdir -p $out
   cp $p $out/patch.diff; cp $src/demo.py $out/demo.py; cp $src/meta.json $out/meta_agent.json 2>/dev/null
@@ -17,7 +18,11 @@ for i in "$@"; do
   last=$(echo "$res" | tail -1)
   failed=$(echo "$res" | grep '^FAILED' | sed 's/^FAILED //; s/ - .*//' | tr '\n' ' ')
   rer=""
-  if [ -n "$failed" ]; then rer=$(cd $W && PYTHONPATH=$W timeout 900 /venv/bin/python -m pytest -q -p no:cacheprovider $failed 2>&1 | tail -1); fi
+  if [ -n "$failed" ]; then
+    # re-run the failed tests alone (ids may contain spaces: one id per line)
+    echo "$res" | grep '^FAILED' | sed 's/^FAILED //; s/ - .*//' > /tmp/wt/failed_ids.txt
+    rer=$(cd $W && PYTHONPATH=$W xargs -d '\n' -a /tmp/wt/failed_ids.txt timeout 900 /venv/bin/python -m pytest -q -p no:cacheprovider 2>&1 | tail -1)
+  fi
   ( cd $W && git checkout -q -- . )
   echo "$i demo_unchanged=$d0 demo_changed=$d1 pytest: $last | failed: $failed | rerun alone: $rer"
   printf '%s\n' "{\"demo_exit_on_repo_head\": $d0, \"demo_exit_with_change\": $d1, \"pytest_with_change\": \"$last\", \"failed_then_rerun_alone\": \"$failed => $rer\", \"repo_head\": \"$H\"}" > $out/verified.json
